@@ -105,6 +105,24 @@ Definition class_VP8Encoder : list (string * fclass) := [
   ("serialTmpRGB", Scratch)
 ].
 
+(** Scratch fields for which the write-before-read analysis over the regenerated access
+    skeletons (Gen/Skel.v, PoolSkel.check) succeeds today: on every path from every
+    entry point of the package the first access to the field is a complete overwrite.
+    The lists are compared with what the analysis computes on every run: a field that
+    stops being decided (a read sneaks in before the fill) breaks the obligation; so
+    does a newly decided one (then move it here).  Everything else stays covered by the
+    frame-condition hypothesis and the 0xA5 poisoning probe. *)
+Definition wbr_VP8Encoder : list string := ["topNz"; "topNzDC"; "itTopY"; "itTopU"; "itTopV"; "itTopNZ"].
+Definition wbr_lossy_Decoder : list string := ["cacheYOff"; "cacheUOff"; "cacheVOff"; "dcScratch"].
+Definition wbr_parallelState : list string := ["topY"; "topU"; "topV"; "topModes"; "topNz"; "topNzDC"].
+Definition wbr_TokenBuffer : list string := [].
+Definition wbr_lossless_Encoder : list string := [].
+Definition wbr_lossless_Decoder : list string := [].
+
+(** origins of returned values outside the module that allocate fresh storage owned by
+    the caller: image.NewNRGBA; the bytes of a function-local bytes.Buffer *)
+Definition fresh_external_origins : list string := ["ext:image.NewNRGBA"; "method:Buffer.Bytes"].
+
 (** resets delegated to a callee that re-initialises the whole field: (field, callee as
     it appears in the regenerated call lists).  ResetProba writes Segments, Bands and
     BandsPtr completely; TokenBuffer.Reset is checked field by field (class_TokenBuffer);
